@@ -63,6 +63,18 @@ theorem apply_with_sql_preferred_engine_sound (σ : Leaves) (st : Store) (fuel :
     (h : applyOp st (fuel+1) (.u o) t opts = .ok res) : ApplyOK σ o t (res.get t) opts :=
   applyOp_iter_target_anypref_sound σ st fuel o t opts res hkt hwf htr hnd hpo htf h
 
+/-- **`apply` with `transfer=True` (no back-tracking) towards a preferred engine of either family, from an
+iteration-engine target**: the target is transferred - into a database the SQL engine conforms the new Transfer - and
+the operation is applied there by the preferred engine's own `apply`; the result has the rows and columns of the plain
+application and lives in the preferred engine.  (With `transfer=False` this is
+`apply_with_sql_preferred_engine_sound`.) -/
+theorem apply_with_transfer_to_preferred_engine_sound (σ : Leaves) (st : Store) (fuel : Nat) (o : UOp) (t : Rel)
+    (opts : Opts) (res : Res) (hkt : t.engine.kind = .iter) (hwf : t.WF) (htr : t.Truthful σ)
+    (hnd : o.isProj = true → t.spineNoDedup) (hpo : ∀ p, opts.pref = some p → t.prefTargetsGood NodeInv.triv σ p)
+    (htf : opts.transfer = true → opts.backtrack = false ∧ ∀ p, opts.pref = some p → transferSimplify p t = none)
+    (h : applyOp st (fuel+1) (.u o) t opts = .ok res) : ApplyOK σ o t (res.get t) opts :=
+  applyOp_iter_target_transfer_sound σ st fuel o t opts res hkt hwf htr hnd hpo htf h
+
 /-- **`apply` on a target in a SQL engine, any options, preferred engine of either family.** -/
 theorem apply_on_sql_target_sound (σ : Leaves) (st : Store) (fuel : Nat) (o : UOp) (t : Rel) (opts : Opts)
     (res : Res) (hwf : t.WF) (htr : t.Truthful σ) (hraw : t.RawSql)
@@ -154,5 +166,13 @@ example : (applyOp [] defaultFuel (.u (.calc tx (.ref ta))) treeI optsI).toOptio
     (fun r => match r.get treeI with
       | .unary (.sel _) (.transfer _ _ (.select ..)) _ => true
       | _ => false) = some true := by decide +kernel
+
+/-- an iteration-engine leaf; a selection preferred in the SQL engine `es` with `transfer=True`, no back-tracking:
+the leaf is transferred into the database (a Select around the Transfer) and the selection applied there -/
+private def optsT : Opts := { pref := some es, backtrack := false, transfer := true, require := false }
+example : leaf0.WF ∧ transferSimplify es leaf0 = none ∧ leaf0.prefTargetsGood NodeInv.triv (fun _ => []) es :=
+  ⟨trivial, rfl, trivial⟩
+example : (applyOp [] defaultFuel (.u (.sel (.ref tb))) leaf0 optsT).toOption.map
+    (fun r => (r.get leaf0).engine == es) = some true := by decide +kernel
 
 end DafRel.Props.C03
